@@ -129,10 +129,12 @@ def slip10ChildKey (nd : Node) (idx : Nat) : R Node := do
   match nd.priv with
   | some priv =>
     let (k, cc) ← slip10CkdPriv nd priv idx
+    if nd.depth ≥ 255 then throw .value        -- `Depth().Increase()`: the depth is one byte
     nodeOfPriv nd.curve nd.scheme k (nd.depth + 1) idx cc nd.fingerprint
   | none =>
     if isHardened idx then throw .key
     let (p, cc) ← slip10CkdPub nd idx
+    if nd.depth ≥ 255 then throw .value
     nodeOfPub nd.curve nd.scheme p (nd.depth + 1) idx cc nd.fingerprint
 
 /-! ### paths -/
